@@ -451,7 +451,7 @@ func vfC18RunPush(c vfC18PushCase, emit func(vfC18PushVec)) {
 				if fs.T && !tr.has(fs.traceID()) {
 					miss = append(miss, fmt.Sprintf("tracing id not delivered (tracer got %q)", tr.ids))
 				}
-				if fs.Kind != "prep" { // warnings / payload of a PREPARE answer are not exposed by the driver
+				if fs.Kind != "prep" && fs.Kind != "batch" { // warnings / payload of a PREPARE answer or a void BATCH result are not exposed by the driver
 					if fs.W && strings.Join(warns, "|") != strings.Join(fs.warnings(), "|") {
 						miss = append(miss, fmt.Sprintf("warnings %q", warns))
 					}
